@@ -101,10 +101,25 @@ def build_harness(bins, release=False):
 # Coq
 
 def coq_makefile():
+    """(Re)generate coq/Makefile from the lines of _CoqProject whose file exists (a listed but
+    not yet written file must not break everybody's build)."""
     mk = os.path.join(COQ, "Makefile")
     proj = os.path.join(COQ, "_CoqProject")
-    if (not os.path.exists(mk)) or os.path.getmtime(mk) < os.path.getmtime(proj):
-        run(["coq_makefile", "-f", "_CoqProject", "-o", "Makefile"], cwd=COQ)
+    lines = []
+    seen = set()
+    for l in open(proj).read().splitlines():
+        s = l.strip()
+        if s.endswith(".v"):
+            if s in seen or not os.path.exists(os.path.join(COQ, s)):
+                continue
+            seen.add(s)
+        lines.append(l)
+    content = "\n".join(lines) + "\n"
+    eff = os.path.join(COQ, ".CoqProject.effective")
+    if (not os.path.exists(mk)) or (not os.path.exists(eff)) or open(eff).read() != content:
+        with open(eff, "w") as f:
+            f.write(content)
+        run(["coq_makefile", "-f", ".CoqProject.effective", "-o", "Makefile"], cwd=COQ)
 
 
 def build_coq(targets, timeout=1500):
